@@ -83,6 +83,10 @@ def draw_common(rng, nv=None, compaction=None, small_batches=None):
                poll_shuffle=rng.random() < 0.3,
                short_write=rng.random() < 0.2,
                clock_rates=[rng.choice([1.0, 1.0, 0.95, 1.05, 0.9, 1.1]) for _ in range(8)] if rng.random() < 0.5 else None,
+               # the repository's own PollPoller / SelectPoller over a simulated `select` module, or the harness'
+               # forgiving stand-in; descriptor numbers re-used like a kernel does (lowest free) or never
+               poller=rng.choice(['sim', 'poll', 'poll', 'select']),
+               fd_reuse=rng.random() < 0.5,
                sched=dict(DEFAULT_SCHED))
     if conf['logCompactionBatchSize'] < 64 or conf['appendEntriesBatchSizeBytes'] < 30:
         # hundreds of tiny chunks per snapshot / entry: on a machine that slow a transfer would take
@@ -412,6 +416,18 @@ class Scheduler(object):
                         return [0.0, 'child', h.idx]
         if self.queue:
             return self.queue.pop(0)
+        ss = getattr(w, 'snap_sent', None)
+        if ss is not None and s['w_compact'] > 0 and self.drain == 0:
+            # adversary: a leader has just handed (a chunk of) a snapshot for node i to its transport; with some
+            # probability that node starts a compaction of its own (forced, as an operator or a timer would) and ticks
+            # before the chunk arrives: the installation of the received snapshot falls between the start and the
+            # completion of its own dump
+            w.snap_sent = None
+            i = ss[0]
+            if ss[1] >= w.evno - 1 and w.hosts[i].node is not None and self.stalled.get(i, -1) <= w.T and rng.random() < 0.25:
+                w.probe('compaction_forced_on_snapshot_receiver')
+                self.queue.append([0.0, 'tick', i])
+                return [dt, 'compact', i]
         live = net.live_pipes()
         if s.get('guide') and self.drain == 0 and self.guide_phase != 'done':
             ev = self._guide_stale_ack(dt)
@@ -514,6 +530,16 @@ class Scheduler(object):
         if k == 'start':
             return [dt, 'start', rng.choice(downs)]
         if k == 'compact':
+            # half of the forced compactions are aimed at a node that is in the middle of receiving a snapshot: its own
+            # compaction and the installation of the leader's snapshot meet within a tick or two
+            recv = []
+            for i in ups:
+                ser = priv(w.hosts[i].node, 'SyncObj', 'serializer')
+                if priv(ser, 'Serializer', 'incomingTransmissionFile') is not None:
+                    recv.append(i)
+            if recv and rng.random() < 0.5:
+                w.probe('compaction_aimed_at_snapshot_receiver')
+                return [dt, 'compact', rng.choice(recv)]
             return [dt, 'compact', rng.choice(ups)]
         if k == 'stall':
             i = rng.choice(ups)
